@@ -6,7 +6,62 @@ sys.path.insert(0, os.path.join(os.path.dirname(os.path.abspath(__file__)), "pro
 import vlib
 
 
+def _guard_children():
+    """No process started by a check may outlive it or exhaust the machine (a changed /repo can make a harness loop while
+    allocating): every child gets PR_SET_PDEATHSIG(SIGKILL), and a watchdog kills any descendant above VERIF_RSS_LIMIT_GB
+    (default 24) resident memory — the harness then 'ends abnormally', which the checks report with the request as replay."""
+    import subprocess, ctypes, signal, threading
+    try:
+        libc = ctypes.CDLL("libc.so.6", use_errno=True)
+    except OSError:
+        return
+
+    def pdeathsig():
+        libc.prctl(1, signal.SIGKILL)
+    orig = subprocess.Popen.__init__
+
+    def init(self, *a, **k):
+        if k.get("preexec_fn") is None:
+            k["preexec_fn"] = pdeathsig
+        orig(self, *a, **k)
+    subprocess.Popen.__init__ = init
+    limit_kb = int(float(os.environ.get("VERIF_RSS_LIMIT_GB", "24")) * 1024 * 1024)
+    me = os.getpid()
+
+    def watch():
+        while True:
+            time.sleep(2.0)
+            try:
+                parent, rss = {}, {}
+                for d in os.listdir("/proc"):
+                    if not d.isdigit():
+                        continue
+                    try:
+                        st = open("/proc/%s/stat" % d).read()
+                        rest = st[st.rindex(")") + 2:].split()
+                        parent[int(d)] = int(rest[1])
+                        rss[int(d)] = int(rest[21]) * 4          # pages of 4 kB
+                    except (OSError, ValueError, IndexError):
+                        continue
+                for pid, r in rss.items():
+                    if r < limit_kb or pid == me:
+                        continue
+                    q, hops = pid, 0
+                    while q in parent and q != me and q > 1 and hops < 64:
+                        q, hops = parent[q], hops + 1
+                    if q == me:
+                        sys.stderr.write("[check.py] killing descendant %d: resident set %.1f GB above the limit\n" % (pid, r / 1048576.0))
+                        try:
+                            os.kill(pid, signal.SIGKILL)
+                        except OSError:
+                            pass
+            except Exception:
+                pass
+    threading.Thread(target=watch, daemon=True).start()
+
+
 def main():
+    _guard_children()
     ap = argparse.ArgumentParser()
     ap.add_argument("pid")
     ap.add_argument("--tier", default=os.environ.get("VERIF_TIER", "quick"))
